@@ -92,9 +92,10 @@ class Obj(object):
         return "obj-of-%r" % (self.owner,)
 
 
-def make_service(record, ctor_gate=None):
+def make_service(record, ctor_gate=None, raising=False):
     """a service CLASS (so that the server instantiates it per connection); `record(kind, inst, conn)` is the hook sink;
-    `ctor_gate()` -> an Event the constructor waits for, or None (a service whose per-session set-up takes its time)"""
+    `ctor_gate()` -> an Event the constructor waits for, or None (a service whose per-session set-up takes its time);
+    `raising`: on_disconnect raises after it has been recorded (an application hook that fails)"""
     import rpyc
 
     class VerifService(rpyc.Service):
@@ -120,6 +121,8 @@ def make_service(record, ctor_gate=None):
             record("d", self, conn)
             if self.gate is not None:
                 self.gate.wait(30)           # armed: stay in here until the harness releases it (`h<k>`)
+            if raising:
+                raise RuntimeError("the application's disconnect hook failed")
 
         def exposed_arm(self):
             self.gate = threading.Event()
@@ -254,7 +257,9 @@ def install_frame_counter(sink=None):
             except EOFError:
                 raise
             except BaseException:
-                if depth == 0:
+                # a frame that raised out of serve().  Not one: an exception of the service's on_disconnect, which serve() runs
+                # when the stream has ENDED (it closes the connection first - that is how the two are told apart)
+                if depth == 0 and not getattr(self, "_closed", False):
                     count(self)
                 raise
             if r and depth == 0:
@@ -298,7 +303,7 @@ class InProcBackend(object):
                 peer = "?"
             with self.lock:
                 self.hooks.append((what, peer, inst))
-        self.service = make_service(record, ctor_gate)
+        self.service = make_service(record, ctor_gate, "rh" in opts)
         cls = dict(threaded=S.ThreadedServer, pool=S.ThreadPoolServer, oneshot=S.OneShotServer)[kind]
         kw = dict(auto_register=False, logger=quiet_logger())
         if "bc" in opts:
@@ -324,6 +329,7 @@ class InProcBackend(object):
             self.srv.poll_object = PollRecorder(self.srv.poll_object)
         self.thread = self.srv._start_in_thread()
         self.close_threads = []
+        self.close_results = []      # one list per close() call: empty while it has not returned
 
     def snapshot(self):
         srv = self.srv
@@ -331,13 +337,16 @@ class InProcBackend(object):
             listening = srv.listener.fileno() != -1
         except Exception:  # noqa
             listening = False
-        q = 0
-        if self.kind == "pool":
+        q = p = 0
+        # a pool whose close() has returned: no thread looks at its poll object or its queue any more (what the poller still
+        # removed in its last round is a race): reported as 0, as the driver does
+        closed_pool = bool(self.close_results) and all(bool(d) for d in self.close_results)
+        if self.kind == "pool" and not closed_pool:
             with srv._active_connection_queue.mutex:
                 q = sum(1 for x in srv._active_connection_queue.queue if x is not None)
+            p = len(srv.poll_object.registered)
         return dict(L=int(listening), A=int(self.thread.is_alive()), c=len(srv.clients),
-                    f=len(getattr(srv, "fd_to_conn", ())),
-                    p=len(srv.poll_object.registered) if self.kind == "pool" else 0, q=q,
+                    f=len(getattr(srv, "fd_to_conn", ())), p=p, q=q,
                     fds=nfds() - self.base_fds, ch=0, n=FRAMES[0] - self.base_frames)
 
     def hook_table(self):
@@ -348,6 +357,7 @@ class InProcBackend(object):
     def close_server(self, ceiling):
         """server.close() from a thread of its own, so that a close that does not return is an observation"""
         done = []
+        self.close_results.append(done)
 
         def do():
             try:
@@ -502,7 +512,7 @@ def forking_child_main(argv):
             os.write(fd, ("%s\t%s\t%d/%d\n" % (what, peer, os.getpid(), id(inst))).encode())
         finally:
             os.close(fd)
-    service = make_service(record)
+    service = make_service(record, None, "rh" in opts)
 
     def frame_sink():
         fd = os.open(hookfile, os.O_WRONLY | os.O_APPEND)
@@ -920,7 +930,8 @@ ITEM_BYTES = {
 # ------------------------------------------------------------------------------------------ session
 class Session(object):
     def __init__(self, kind, transport, auth, nb, call_timeout=CALL_TIMEOUT, opts=()):
-        """opts: "bc" = the server's protocol_config carries a `before_closed` hook; "gate" = a client connecting with `s`
+        """opts: "rh" = the service's on_disconnect raises (after it has been recorded); "bc" = the server's protocol_config
+        carries a `before_closed` hook; "gate" = a client connecting with `s`
         sends GOOD credentials at once and it is the service's constructor that waits (per-session set-up that takes its
         time), until `k<k>:g` lets it finish - to the model the same bookkeeping state as an authenticator that waits"""
         self.kind, self.transport, self.auth, self.nb = kind, transport, auth, nb
